@@ -197,7 +197,7 @@ func Drive(in string, index int, w *ev.Writer, seed int64, tracePath string) err
 		}
 	}
 	rec.emit(map[string]any{"k": "Quiesce", "gor": cen1.Map()})
-	liteclient.VerifHook = nil // later hook calls of the still running ping goroutines are not recorded
+	rec.closed.Store(true) // later hook calls of the still running ping goroutines are not recorded
 
 	// ---------------------------------------------------------------- harness-side assertions
 	res := ev.M{"k": "Result", "id": sc.ID, "cls": sc.Cls, "mode": sc.Mode, "ncalls": next, "nconns": sc.NConns, "timeout_ms": sc.TimeoutMs,
@@ -310,10 +310,12 @@ func (sv *server) run(sc *Script, timeout time.Duration) {
 			sv.waitArrival(st.I, timeout+300*time.Millisecond)
 		case "ans":
 			if a := sv.waitArrival(st.I, 50*time.Millisecond); a != nil {
-				sv.send(a.l, "srv.ans", a.id, hash8(a.data), frameAnswer(a.id, a.data))
+				if sv.send(a.l, "srv.ans", a.id, hash8(a.data), frameAnswer(a.id, a.data)) {
+					a.sent.Store(true)
+				}
 			}
 		case "dup":
-			if a := sv.arrivalOf(st.I); a != nil {
+			if a := sv.arrivalOf(st.I); a != nil && a.sent.Load() { // a duplicate of an answer that was produced
 				l := a.l
 				if st.Of > 0 || st.K > 0 {
 					if x := resolve(st); x != nil {
